@@ -242,7 +242,16 @@ impl<'a> Gen<'a> {
       }
       3 => {
         let i = self.var("i");
-        format!("(for {} in {}..{} return {})", i, self.rng.range(-2, 4), self.rng.range(-2, 4), self.num(d - 1, &vars.with(&i, K::Num)))
+        // range ends written with fraction digits (1.0, 2.00: integral values) or with a fraction (1.5: not a range end)
+        let suffix = |r: &mut Rng| -> &'static str {
+          if r.chance(1, 4) {
+            *r.pick(&[".0", ".00", ".5", ".000000000000000000000000000000000"])
+          } else {
+            ""
+          }
+        };
+        let (s1, s2) = (suffix(&mut self.rng), suffix(&mut self.rng));
+        format!("(for {} in {}{}..{}{} return {})", i, self.rng.range(-2, 4), s1, self.rng.range(-2, 4), s2, self.num(d - 1, &vars.with(&i, K::Num)))
       }
       4 => {
         let i = self.var("i");
@@ -462,6 +471,10 @@ pub fn corpus() -> Vec<&'static str> {
     "if null then 1 else 2",
     "for x in [1,2], x in [3,4] return x",
     "for i in 3..1 return i",
+    "for i in 1.0..3.00 return i",
+    "for i in 1.5..3 return i",
+    "for i in -1.0..1 return i",
+    "for i in -0.0..1 return i",
     "[[1,2],[3]][1][2]",
     "1 / 0",
     "n1 + nz",
